@@ -507,6 +507,8 @@ class Engine:
         if isinstance(a, C) and a.v is None:
             if isinstance(b, (D, Lst, Tup, Obj)) or (isinstance(b, ZV) and b.ty in ('node', 'hv', 'bool', 'int')):
                 return False
+            if isinstance(b, ZV) and b.ty == 'val':
+                return b.t == Z.NoneVal          # a user value may be None
         if isinstance(b, C) and b.v is None:
             return self.py_is(st, b, a)
         if isinstance(a, ZV) and isinstance(b, C) and isinstance(b.v, bool) and a.ty == 'bool':
